@@ -763,6 +763,10 @@ long tick(long x);
 typedef void (__attribute__((ms_abi)) *cb)(int);
 void takes(cb c, void (*fold)(int));
 void __attribute__((ms_abi)) unrelated(void);
+typedef int cbfn(int, void *);
+struct HoldsFnTypedef { cbfn *f; cbfn *arr[2]; };
+int take_fntd(cbfn *p);
+cbfn *give_fntd(void);
 """
 
 
@@ -805,6 +809,13 @@ def abi_names_part(ck):
                 probs.append(f"member ops.{fname}: `{fields.get(fname)}`, declared convention is \"{abi}\"")
         if 'extern"win64"fn' not in types.get("cb", ""):
             probs.append(f"typedef cb: `{types.get('cb')}`, declared convention is \"win64\"")
+        # a pointer to a typedef of a FUNCTION type is a function pointer, not a pointer to a slot holding one
+        hf = next((it for it in r["inventory"]["items"] if it["kind"] == "struct" and it["name"] == "HoldsFnTypedef"), None)
+        sigs = {fi["name"]: fi["tokens"].replace(" ", "") for it in r["inventory"]["items"] if it["kind"] == "foreign_mod" for fi in it["items"]}
+        for what, text in ([(f"member HoldsFnTypedef.{f['name']}", f["ty"].replace(" ", "")) for f in (hf["fields"] if hf else [])]
+                           + [("parameter of take_fntd", sigs.get("take_fntd", "")), ("result of give_fntd", sigs.get("give_fntd", ""))]):
+            if "*mutcbfn" in text or "*constcbfn" in text or "cbfn" not in text:
+                probs.append(f"{what}: `{text[:90]}` - expected an Option of the function-pointer typedef `cbfn`, not a raw pointer to it")
         ck.nontriv(("abinames", n))
         if probs:
             ck.violation(f"abi-names opt={n}", dict(det, why="; ".join(probs)[:600]))
